@@ -14,8 +14,9 @@ RULE = (
     "every data length n in 32..135 (quick) / 32..300 (thorough) x kind in {boxcar, gaussian, lorentzian} x bank (nbins_max in {4,8,16} x "
     "spacing in {1.5,2}) that fits: (a) every response convs[k,t] (all templates, all bins) == <z, m_k,t> in float64; (b) snr/peak_bin/"
     "best_temp == max/argmax of convs; (c) invariance under x -> a*x+b for 6 maps; (d) for lengths in a sub-grid, a noiseless boxcar of "
-    "every bank width at EVERY start bin 0..n-1 (wrapping) is recovered at its start bin with its width. Non-trivial = every case; lengths "
-    "that are not FFT-good sizes are counted separately"
+    "every bank width at EVERY start bin 0..n-1 (wrapping) is recovered at its start bin with its width. Non-trivial = response sets at "
+    "lengths that are not FFT-good sizes, argmax cases whose best template is not the first, every affine map, every direct kernel call with "
+    "an unsorted bank, and recovery cases whose pulse touches or wraps around the array edge"
 )
 ASSUMPTIONS = [
     "z is the library's own standardised data (MatchedFilter.zscores.data); the template definition (zero-padded to n, zero mean, unit L2 norm, reference bin rolled to t) is evaluated independently in float64",
@@ -123,7 +124,7 @@ def _responses(shard, ctx, res, only):
                 res.outcome("responses/ok")
                 if not good:
                     res.outcome("responses/non_good_length")
-                res.nontrivial += 1
+                    res.nontrivial += 1
                 # (b) argmax
                 res.evaluations += 1
                 flat = np.asarray(mf.convs).ravel()
@@ -137,7 +138,8 @@ def _responses(shard, ctx, res, only):
                                       f"reported snr={mf.snr} bin={mf.peak_bin} width={mf.best_temp.width}; argmax template {k} bin {t} value {np.asarray(mf.convs)[k, t]}")
                         continue
                     res.outcome("argmax/ok")
-                    res.nontrivial += 1
+                    if k > 0:
+                        res.nontrivial += 1
                 # (c) affine invariance (one bank per kind and length is enough: the map acts on the data)
                 if (nbmax, spacing) != (8, 1.5):
                     continue
@@ -223,5 +225,6 @@ def _recovery(shard, ctx, res, only):
                                   f"n={n} width {w} at bin {p}: reported bin {mf.peak_bin} width {mf.best_temp.width} snr {mf.snr}")
                     continue
                 res.outcome("boxcar_recovery/ok")
-                res.nontrivial += 1
+                if p + w > n or p == 0:
+                    res.nontrivial += 1
     res.sample({"shard": shard, "inner": [8, 1.5, 3, n - 1]}, cap=1)
